@@ -8,6 +8,7 @@ from . import rules_store as S
 from . import rules_clone as C
 from . import rules_equality as E
 from . import rules_build as B
+from . import rules_runtime as R
 
 RULES = {
     "T1": T.rule_T1,
@@ -18,7 +19,10 @@ RULES = {
     "T8": C.rule_T8,
     "T9": B.rule_T9,
     "T10": B.rule_T10,
+    "A1": R.rule_A1,
     "A2": B.rule_A2,
+    "A4": R.rule_A4,
+    "A5": R.rule_A5,
     "A3": L.rule_A3,
     "D1": U.rule_D1,
     "D2": U.rule_D2,
